@@ -106,7 +106,7 @@ Proof.
   assert (E : filter_candidates rq true cs = []).
   { unfold filter_candidates. induction cs as [|c cs IH]; cbn; [reflexivity|].
     rewrite (Hall c (or_introl eq_refl)). apply IH. intros x Hx. apply Hall. right; exact Hx. }
-  unfold attempt. rewrite E. cbn. rewrite andb_false_r. reflexivity.
+  unfold attempt. rewrite E. cbn. destruct (fallback_cond rq cs); reflexivity.
 Qed.
 
 Lemma get_dist_nil st rq : get_dist st rq [] = NoCandidate.
